@@ -182,6 +182,11 @@ def run_history(ops: list, log_keep=False) -> dict:
     from .kernel import Violation
 
     gc_off()
+    # S3 with address reuse: procedure hashes are serial numbers, and the serial of a collected
+    # procedure is handed to the next new one (deterministic stand-in for id() reuse)
+    from .seams import salt_begin_run
+
+    salt_begin_run(0x51C11, reuse=True)
     log = EventLog(keep=log_keep)
     probes = Probes()
     model = EqvModel()
